@@ -124,6 +124,7 @@ let run () =
           let f = int_of_string f in
           if not (is_open f) then print_string "err other\n" else
           let p = Hashtbl.find paths f in
+          if adf && not (file_open !st p) then print_string "ok S: !err other\n" else
           (match disk_get !st.a_disk p with
            | None -> print_string "err other\n"
            | Some df ->
